@@ -33,6 +33,25 @@ def gen_calendars(rnd, tier):
     for n in ([1000, 1015, 1023, 1024, 1030, 1100] if tier == 'thorough' else [1015, 1030]):
         long = [b'SUMMARY:' + b'x' * (n - 8) if l.startswith(b'SUMMARY') else l for l in base]
         cals.append(('gen:long%d' % n, b'\n'.join(long) + b'\n'))
+    # streams of several calendars (RFC 5545 3.4: objects can be grouped sequentially in one stream; echsd answers a request that
+    # arrived in pieces with several reply calendars, echsq reads them as they come), with different things between them
+    def cal(meth, evs):
+        L = [b'BEGIN:VCALENDAR', b'VERSION:2.0'] + ([b'METHOD:' + meth] if meth else [])
+        for u, extra in evs: L += [b'BEGIN:VEVENT', b'UID:' + u] + extra + [b'END:VEVENT']
+        return L + [b'END:VCALENDAR']
+    pub1 = cal(b'PUBLISH', [(b'm-a', [b'SUMMARY:echo a', b'DTSTART:20300101T000000Z', b'RRULE:FREQ=DAILY;COUNT=3'])])
+    pub2 = cal(None, [(b'm-b', [b'SUMMARY:echo b', b'DTSTART:20300201T000000Z']), (b'm-c', [b'SUMMARY:echo c', b'DTSTART;VALUE=DATE:20300301'])])
+    canc = cal(b'CANCEL', [(b'm-a', [])])
+    rpl1 = cal(b'REPLY', [(b'm-a', [b'REQUEST-STATUS:2.0;Success'])])
+    rpl2 = cal(b'REPLY', [(b'm-b', [b'REQUEST-STATUS:5.1;Service unavailable']), (b'm-c', [b'REQUEST-STATUS:2.0;Success'])])
+    combos = [[pub1, pub2], [rpl1, rpl2, rpl1], [pub1, canc, pub2], [rpl2, rpl1], [canc, canc, pub1]]
+    seps = [b'', b'\n', b'\r\n', b'X-JUNK:between\n', b'\n\n \n', b'END:VCALENDAR\n', b'SUMMARY:stray\n']
+    k = 0
+    for combo in combos:
+        for sep in (seps if tier == 'thorough' else rnd.sample(seps, 3) + [b'']):
+            for eol in (b'\n', b'\r\n'):
+                if tier != 'thorough' and eol == b'\r\n' and k % 2: k += 1; continue
+                cals.append(('gen:multi%d' % k, sep.join(eol.join(c) + eol for c in combo))); k += 1
     # truncated and garbage
     whole = b'\r\n'.join(base) + b'\r\n'
     for cut in rnd.sample(range(1, len(whole)), 12 if tier == 'thorough' else 4):
